@@ -404,8 +404,8 @@ func (dec *xmlReader) DateTime(tag int) (time.Time, error) {
 		return time.Time{}, err
 	}
 	dt = dt.Local()
-	if dt.Year() > 9999 {
-		// A zone offset can put the instant beyond year 9999: such a date cannot be written back in RFC 3339
+	if dt.Year() > 9999 || dt.Year() < 0 {
+		// A zone offset can put the instant beyond year 9999 or before year 0: such a date cannot be written back in RFC 3339
 		return time.Time{}, Errorf("date-time is out of range")
 	}
 	return dt, dec.Next()
